@@ -349,13 +349,13 @@ class HierDictDocument(DictDocument):
                 for a in v:
                     subinst.append(
                             self._from_dict_value(ctx, k, member, a, validator))
+                    frequencies[k] += 1
 
             else:
                 subinst = self._from_dict_value(ctx, k, member, v, validator)
+                frequencies[k] += 1
 
             inst._safe_set(k, subinst, member, member_attrs)
-
-            frequencies[k] += 1
 
         attrs = self.get_cls_attrs(cls)
         if validator is self.SOFT_VALIDATION and attrs.validate_freq:
